@@ -24,6 +24,10 @@ CLAIMS["C16"] = ("banned-construct scan and map-range order-independence analysi
     "Static decision, over every comdex function reachable from message handlers, block hooks, wasm bindings, ante decorators, IBC callbacks, genesis and app-level block functions (about 1600 functions), that (a) every range over a map has an order-independent body (commutative exact accumulation, writes keyed by the loop key, pure calls, sorted appends; no early exit, no context call, no float/string accumulation) and (b) no wall clock, global or crypto randomness, process environment, goroutine, channel, select, %p or unordered map-key extraction is used. This is the strongest fit for static analysis: replay tests can only observe nondeterminism that happens to manifest, the scan covers all code. NOT covered: nondeterminism inside dependencies, reflection, cross-architecture floating point (float sites are listed for information).",
     "DESIGN.md §3 C16")
 
+CLAIMS["C12"] = ("must-pass owner-equality guard with signer provenance (interprocedural), sender-guard under chain-id assumption, swallowed-rejection and identifier-kind rules",
+    "Static decision of the authorisation shape: every handler whose request names a vault/locker/lend/borrow/order id passes record.owner == signer on all success paths, the signer being traced from the request's GetSigners field through keeper parameters at every call site; each of the 20 custom contract-message handlers reaches keeper code on comdex-1 / comdex-test3 only behind sender-parameter == governance address (same index on both chains); kill switch only behind Admin(signer); no error branch of a handler returns a known-nil error; no id of one kind is passed where another kind is expected (catches owner checks against the wrong record, swapped app/pair ids). Quantifies over all handlers and paths, which per-case tests cannot. NOT covered: 'a rejected attempt changes nothing' (SDK atomicity, trusted); farm positions and limit bids are keyed by the signer and are covered by construction, not by an equality test; identifier kinds are inferred from names and are silent when a name is generic.",
+    "DESIGN.md §3 C12")
+
 NOT_APPLICABLE = {
     "C18": "purely numeric relations between evaluations of accrual/rate functions (non-negativity, monotonicity, sub-additivity, continuity; one path through float64 math.Pow); no guard, pairing, provenance or ordering is a necessary condition of them, so no sound static argument in reach applies (DESIGN.md §3 C18, §4).",
 }
